@@ -23,7 +23,8 @@ from typing import Any
 
 from harness.common import REPO
 
-IDENT_RE = re.compile(r'[A-Za-z_][A-Za-z_0-9]*')
+# an identifier token: not the tail of a number literal (`1e5`, `0x1F`) or of an escape sequence (`\\n`)
+IDENT_RE = re.compile(r'(?<![0-9A-Za-z_\\])[A-Za-z_][A-Za-z_0-9]*')
 
 CPP_KEYWORDS = set('''alignas alignof and and_eq asm auto bitand bitor bool break case catch char char8_t char16_t char32_t class compl concept
 const consteval constexpr constinit const_cast continue co_await co_return co_yield decltype default delete do double dynamic_cast else
